@@ -4,6 +4,7 @@ import (
 	"os"
 	"path/filepath"
 	"testing"
+	. "verifharness/hist"
 
 	"github.com/google/reftable"
 	"pgregory.net/rapid"
@@ -12,8 +13,8 @@ import (
 )
 
 type c01Case struct {
-	Table    gen.TableSpec `json:"table"`
-	ViaFile  bool          `json:"via_file,omitempty"`
+	Table   gen.TableSpec `json:"table"`
+	ViaFile bool          `json:"via_file,omitempty"`
 }
 
 func genC01(t *rapid.T) c01Case {
